@@ -20,6 +20,8 @@ claimed={
         "Rule predicates (harness/h/c13.go) transcribe the documented rules; R5/R6 are parse failures."),
  "C07":("An independent recursive-descent parser of the documented grammar (by precedence levels) runs on the same symbolic tokens; whenever it derives the sequence the real parser must succeed with a field-by-field equal tree (positions ignored; operator kinds, names, flags, defaults, optional parts). Families: all token sequences within the bound, operator ladders with arbitrary binary operators, seed programs and their corruptions, and layout/synonym variations through the real lexer.",
         "Reference grammar (harness/h/refparse.go) is the oracle; constructs not in it (chained indexing, comma before by) carry no claim."),
+ "C05":("Every compiling token sequence within the bound, the seed programs with arbitrary corruptions and name-collision shapes are compiled by the real compiler; the emitted text (with symbolic bytes where names are arbitrary) is lexed by two independent SQL lexers and parsed by an independent statement parser: one statement, one final semicolon, no comment or unterminated token, [WITH ...] SELECT shape, every FROM/JOIN source a PQL table or an earlier CTE, generated names unique, every CTE used.",
+        "SQL lexers/parser in harness/h are the oracle."),
 }
 checks=[]
 for p in props:
